@@ -222,6 +222,11 @@ def check(run):
     sfailed = D.structural_generic(run, ["generation/generator.py", "generation/simplifier.py", "generation/duplicate_checker.py", "fitting/test_all.py",
                                          "fitting/test_all_Fisher.py", "fitting/match.py", "fitting/combine_DL.py"], frames.obligations, "pyvc.frames (AST analysis)",
                                    "frame obligations: append-mode files reset earlier in the call, shuffles preceded by their own seed, symbol-table writes canonical, truncating writes")
+    # F8: the stage functions that parse with the shared symbol table register the parameter symbols themselves (generator.string_to_expr, the string API of C18, does not:
+    #     it is not one of the stages C16 speaks about -- DESIGN section 2, C16, observation)
+    sfailed = list(sfailed) + list(D.structural_generic(run, ["generation/simplifier.py", "generation/duplicate_checker.py", "fitting/match.py", "fitting/test_all.py",
+                                                              "fitting/test_all_Fisher.py", "fitting/combine_DL.py"], frames.parse_table_obligations, "pyvc.frames (AST analysis)",
+                                                        "F8: a parse with the module-level symbol table is preceded in the same call by the registration of the parameter symbols"))
     # F5: no stage function writes a module-level container (a cache that survives the call)
     import ast
     for rel in ["generation/generator.py", "generation/simplifier.py", "generation/duplicate_checker.py", "generation/utils.py", "fitting/test_all.py",
